@@ -131,3 +131,21 @@ Theorem C01_write_is_local :
     skipn (8 * (q + (r + List.length bs + 7) / 8)) s.
 Proof. exact write_bits_window. Qed.
 Print Assumptions C01_write_is_local.
+
+(* ------------------------------------------------------------------ no error / in-bounds premise *)
+(* C01_history with its premises `w_err = false` and `inb_run` DERIVED (Tracer/NoError.v, see
+   Props/C02.v C02_no_error for the vocabulary: bufs_ok - every buffer holds the packet header and
+   context; call_okf - well-typed, sized arguments) *)
+From BT.Tracer Require Import NoError.
+Theorem C01_history_full :
+  forall d user cs_size, wf_d d user cs_size ->
+  forall buf oracle h,
+    fits cs_size (8 * buf) -> or_ok cs_size oracle -> bufs_ok d user buf oracle ->
+    Forall (call_okf d) h ->
+    let w0 := mk_w (init_ctx buf) oracle 0%Z [] false user in
+    let w1 := step d w0 COpen in
+    c_open (w_c w1) = true ->
+    let w := run d buf user oracle (COpen :: h) in
+    exists ds K cur, outs d w1 h ds /\ HI d user cs_size w K cur /\ flat K ++ cur = List.concat ds.
+Proof. exact history_main_full. Qed.
+Print Assumptions C01_history_full.
